@@ -54,6 +54,16 @@ PRECONDITION = {
     "<std::time::Instant as core::ops::arith::Sub<core::time::Duration>>::sub": "Instant-sub",
     "<std::time::Instant as core::ops::arith::Add<core::time::Duration>>::add": "Instant-add",
     "core::slice::<impl [T]>::split_at": "slice::split_at",
+    # dependencies' documented panics
+    "rand::rng::RngExt::random_range": "random_range", "rand::Rng::gen_range": "random_range",
+    "tokio::task::blocking::block_in_place": "block_in_place",
+    "chrono::datetime::DateTime::timestamp_nanos": "chrono-range", "chrono::time_delta::TimeDelta::seconds": "chrono-range",
+    "chrono::time_delta::TimeDelta::milliseconds": "chrono-range", "chrono::time_delta::TimeDelta::days": "chrono-range",
+    "chrono::time_delta::TimeDelta::hours": "chrono-range", "chrono::time_delta::TimeDelta::minutes": "chrono-range",
+    "<chrono::datetime::DateTime as core::ops::arith::Add<chrono::time_delta::TimeDelta>>::add": "chrono-range",
+    "<chrono::datetime::DateTime as core::ops::arith::Sub<chrono::time_delta::TimeDelta>>::sub": "chrono-range",
+    "chrono::naive::date::NaiveDate::from_ymd": "chrono-range", "chrono::offset::TimeZone::timestamp": "chrono-range",
+    "chrono::offset::LocalResult::unwrap": "chrono-range",
 }
 PRECONDITION = {k: v for k, v in PRECONDITION.items() if v}
 
